@@ -585,6 +585,39 @@ def num_lines(ctx):
     return lines
 
 
+def cfun_lines(ctx):
+    """the translated C leaf functions (HtpModel/Gen/CFuns.lean) against the real ones: checks the translator and its semantics"""
+    rng = ctx.rng
+    lines = []
+    for c in list(range(-2, 130)) + [255, 256, 1000]:
+        for f in ("htp_is_lws", "htp_is_text", "htp_is_folding_char"):
+            lines.append("cfun %s %d" % (f, c))
+    alpha = [0x61, 0x41, 0x20, 0x09, 0x0d, 0x0a, 0x00, 0x7a]
+    n = 4 if ctx.tier == "quick" else 5
+    for s1 in strings_upto(alpha, n):
+        h = hx(list(s1))
+        for f in ("htp_is_line_empty", "htp_is_line_whitespace", "htp_chomp"):
+            lines.append("cfun %s %s" % (f, h))
+    al2 = [0x61, 0x41, 0x62, 0x00]
+    for s1 in strings_upto(al2, 3):
+        for s2 in strings_upto(al2, 3):
+            for f in ("bstr_util_cmp_mem", "bstr_util_cmp_mem_nocase", "bstr_util_mem_index_of_mem"):
+                lines.append("cfun %s %s %s" % (f, hx(list(s1)), hx(list(s2))))
+    for l in num_lines(ctx):
+        t = l.split(" ")
+        if t[1] == "pint":
+            lines.append("cfun bstr_util_mem_to_pint %s %s" % (t[2], t[3]))
+        elif t[1] == "ppiw":
+            lines.append("cfun htp_parse_positive_integer_whitespace %s %s" % (t[2], t[3]))
+    for _ in range(4000 if ctx.tier == "quick" else 60000):
+        a = [rng.choice(b"aAbB \t\r\n\x00z09") for _ in range(rng.randint(0, 12))]
+        b = [rng.choice(b"aAbB \t\r\n\x00z09") for _ in range(rng.randint(0, 4))]
+        f = rng.choice(("bstr_util_cmp_mem", "bstr_util_cmp_mem_nocase", "bstr_util_mem_index_of_mem"))
+        lines.append("cfun %s %s %s" % (f, hx(a), hx(b)))
+        lines.append("cfun %s %s" % (rng.choice(("htp_is_line_empty", "htp_is_line_whitespace", "htp_chomp")), hx(a)))
+    return lines
+
+
 def _same(want, got):
     """a reference line starting with "~" judges the end of the result line only"""
     return got.endswith(want[1:]) if want.startswith("~") else want == got
@@ -593,7 +626,7 @@ def _same(want, got):
 def run(ctx, model_ok=True, proofs_broken=False):
     scripts = ring_scripts(ctx) + table_scripts(ctx)
     # stateless lines are grouped in scripts of one line (independent); pack 1 per script for shrinking purposes
-    flat = bstr_lines(ctx) + num_lines(ctx)
+    flat = bstr_lines(ctx) + num_lines(ctx) + cfun_lines(ctx)
     # builder operations are stateful: one script per block starting at "bstr bb new"
     blocks, cur = [], None
     rest = []
